@@ -14,6 +14,7 @@ import (
 	"github.com/zclconf/go-cty/cty"
 
 	"hx/lib"
+	"hx/props/histgen"
 	"hx/props/decgen"
 )
 
@@ -652,6 +653,7 @@ func run(cx *lib.Ctx) {
 		res.Sample(c.in)
 		return
 	}
+	histgen.Run(cx, "C03")
 	root := cx.R.Fork()
 	n := cx.Scale(14000, 250000)
 	for i := 0; i < n; i++ {
